@@ -18,7 +18,7 @@ LEVEL_NOTE = (
 TECHNIQUE = "property-based testing: Hypothesis random inputs vs brute-force/recursive unordered super-reconciliation oracle"
 DESIGN_REF = "DESIGN.md section 5 (C03), 4.4, 4.7"
 RULE = (
-    "Hypothesis cases: binary object tree (<=6 leaves), species tree (<=4 leaves), leaf assignment, <=5 families, each leaf a "
+    "Hypothesis cases: binary object tree (<=6 leaves; thorough <=8), species tree (<=4 leaves; thorough <=6), leaf assignment, <=5 families, each leaf a "
     "non-empty family set, coherent costs.  Checked: usreconcile_extended_uspfs (ALL, ANY) cost == optimum over all mappings x all "
     "labellings in which each family is gained once at the LCA of its carriers; usreconcile_base_uspfs == optimum with the LCA mapping; "
     "outputs valid (V-MAP, V-UNO), package cost == recount; the gain/required sets computed from the input are equal before and after "
@@ -35,6 +35,9 @@ FUZZ = {"thorough": {"runs": 20000, "max_time": 900}}
 
 
 def strategy(tier):
+    if tier == "thorough":
+        return gen.rec_case(max_obj=8, max_sp=6, min_obj=1, costs="coherent", labelled=True, max_fam=5,
+                            allow_inconsistent=False)
     return gen.rec_case(max_obj=6, max_sp=4, min_obj=1, costs="coherent", labelled=True, max_fam=5,
                         allow_inconsistent=False)
 
